@@ -413,7 +413,24 @@ VariablesStack::findXObject(
                 const PushAndPopContextMarker   theContextMarkerPushPop(executionContext);
 #endif
 
-                theNewValue = var->getValue(executionContext, doc);
+                {
+                    // XSLT 1.0 section 11.4: a top-level variable-binding element
+                    // is evaluated with the root node as the current node and a
+                    // current node list containing just the root node, wherever
+                    // the first reference happens to be.
+                    typedef XPathExecutionContext::BorrowReturnMutableNodeRefList   BorrowReturnMutableNodeRefList;
+                    typedef XPathExecutionContext::ContextNodeListPushAndPop        ContextNodeListPushAndPop;
+
+                    BorrowReturnMutableNodeRefList  theRootNodeList(executionContext);
+
+                    theRootNodeList->addNode(doc);
+
+                    const ContextNodeListPushAndPop     theContextNodeListPushAndPop(
+                                executionContext,
+                                *theRootNodeList);
+
+                    theNewValue = var->getValue(executionContext, doc);
+                }
                 assert(theNewValue.null() == false);
 
 #if !defined(XALAN_RECURSIVE_STYLESHEET_EXECUTION)
